@@ -1,3 +1,4 @@
+pub mod crashprops;
 pub mod seqprops;
 
 use crate::env::Tier;
@@ -5,6 +6,9 @@ use crate::env::Tier;
 pub fn dispatch(id: &str, tier: Tier, seed: u64, replay: Option<&str>) -> i32 {
     match id {
         "C01" | "C05" | "C10" | "C11" | "C12" | "C13" | "C14" | "C16" => seqprops::run(id, tier, seed, replay),
+        "C02" => crashprops::run("C02", tier, seed, replay),
+        "C03" => crashprops::run("C03", tier, seed, replay),
+        "C04" => crashprops::run("C04", tier, seed, replay),
         _ => {
             eprintln!("fxv: no check registered for {id}");
             64
